@@ -316,8 +316,12 @@ pub async fn natural_scenario(bundle: &[Value], cfg: &Cfg, workdir: &str, rng: &
         }
         let mut acts_done = Vec::new();
         for pid in &pids {
+            // at most one answer per process and burst: the bursts are about many processes at
+            // once, not about several client calls racing on one process
+            let mut answered = false;
             for t in w.tasks_of(pid) {
-                if t.1 == "act" && t.2 == "interrupted" && rng.gen_bool(0.8) {
+                if !answered && t.1 == "act" && t.2 == "interrupted" && rng.gen_bool(0.8) {
+                    answered = true;
                     if let Some(tid) = w.tid_of(pid, &t.0) {
                         let res = w.exec.act().complete(pid, &tid, &acts::Vars::new());
                         acts_done.push(json!({"pid": pid, "t": key_json(&t.0), "kind": "complete",
